@@ -378,12 +378,64 @@ func c01SharedLeaves(k *fw.K) {
 	k.Sample()
 	var ts []tensor.Tensor
 	var err error
-	if pn := call(func() { ts, err = rt.Run(p) }); pn != nil || err != nil {
+	interleaved := k.Index%4 == 2 && len(roots) == len(starts)
+	if interleaved {
+		// the construction of each graph STRADDLES the back-propagation of the previous one: graph s is half built, graph s-1
+		// is back-propagated, graph s is completed (no resets; the graphs share only leaves, gradients accumulate)
+		k.Count("shared_leaf_histories_with_interleaved_construction", 1)
+		ts = make([]tensor.Tensor, len(p))
+	} else if pn := call(func() { ts, err = rt.Run(p) }); pn != nil || err != nil {
 		k.Failf("forward execution failed: panic=%v err=%v", pn, err)
 		return
 	}
+	build := func(from, to int) bool {
+		var berr error
+		if pn := call(func() {
+			for i := from; i < to && berr == nil; i++ {
+				xs := make([]tensor.Tensor, len(p[i].In))
+				for q, j := range p[i].In {
+					xs[q] = ts[j]
+				}
+				ts[i], berr = rt.Exec(p[i], xs)
+			}
+		}); pn != nil || berr != nil {
+			k.Failf("forward execution of instructions %d..%d failed: panic=%v err=%v", from, to-1, pn, berr)
+			return false
+		}
+		return true
+	}
+	// everything that takes a shared LEAF as a direct operand is built before the first back-propagation (afterwards the leaf is
+	// spent and, by C08, results computed from it directly would be untracked); the rest of each graph is built only after the
+	// previous graph has been back-propagated
+	mids := make([]int, len(roots))
+	if interleaved {
+		if !build(0, nl) {
+			return
+		}
+		for s := range starts {
+			mids[s] = starts[s]
+			for i := starts[s]; i <= roots[s]; i++ {
+				for _, j := range p[i].In {
+					if j < nl {
+						mids[s] = i + 1
+					}
+				}
+			}
+			if !build(starts[s], mids[s]) {
+				return
+			}
+		}
+	}
 	acc := make([]*ref.T, len(p))
 	for n, root := range roots {
+		if interleaved {
+			if n > 0 && mids[n] <= root {
+				k.Count("graphs_completed_after_the_previous_back_propagation", 1)
+			}
+			if !build(mids[n], root+1) {
+				return
+			}
+		}
 		_, berr, exceeded, pn := backpropCounted(ts[root], 4*edgeBound(p, root)+4)
 		if exceeded != nil || pn != nil || berr != nil {
 			k.Failf("back-propagation %d (root %d) failed: bound=%v panic=%v err=%v", n, root, exceeded, pn, berr)
